@@ -10,6 +10,7 @@ import (
 	"github.com/zeebo/errs"
 
 	"storj.io/drpc"
+	"storj.io/drpc/drpcdebug"
 	"storj.io/drpc/drpcenc"
 	"storj.io/drpc/drpcmanager"
 	"storj.io/drpc/drpcmetadata"
@@ -116,6 +117,7 @@ func (c *Conn) Invoke(ctx context.Context, rpc string, enc drpc.Encoding, in, ou
 		return err
 	}
 	defer func() { err = errs.Combine(err, stream.Close()) }()
+	drpcdebug.Point("conn.invoke.afterCreate", c.tr)
 
 	// we have to protect c.wbuf here even though the manager only allows one
 	// stream at a time because the stream may async close allowing another
@@ -139,13 +141,16 @@ func (c *Conn) doInvoke(stream *drpcstream.Stream, enc drpc.Encoding, rpc string
 		if err := stream.RawWrite(drpcwire.KindInvokeMetadata, metadata); err != nil {
 			return err
 		}
+		drpcdebug.Point("conn.invoke.afterMeta", c.tr)
 	}
 	if err := stream.RawWrite(drpcwire.KindInvoke, []byte(rpc)); err != nil {
 		return err
 	}
+	drpcdebug.Point("conn.invoke.afterInvoke", c.tr)
 	if err := stream.RawWrite(drpcwire.KindMessage, data); err != nil {
 		return err
 	}
+	drpcdebug.Point("conn.invoke.afterMessage", c.tr)
 	if err := stream.CloseSend(); err != nil {
 		return err
 	}
@@ -171,6 +176,7 @@ func (c *Conn) NewStream(ctx context.Context, rpc string, enc drpc.Encoding) (_ 
 		return nil, err
 	}
 
+	drpcdebug.Point("conn.newstream.afterCreate", c.tr)
 	if err := c.doNewStream(stream, rpc, metadata); err != nil {
 		return nil, errs.Combine(err, stream.Close())
 	}
@@ -183,6 +189,7 @@ func (c *Conn) doNewStream(stream *drpcstream.Stream, rpc string, metadata []byt
 		if err := stream.RawWrite(drpcwire.KindInvokeMetadata, metadata); err != nil {
 			return err
 		}
+		drpcdebug.Point("conn.newstream.afterMeta", c.tr)
 	}
 	if err := stream.RawWrite(drpcwire.KindInvoke, []byte(rpc)); err != nil {
 		return err
